@@ -134,7 +134,11 @@ class Gen:
 			self.features.add('op:' + op)
 			if op in ('<<', '>>'):
 				left = self.expr('int', depth - 1)
-				right = str(r.choice([0, 1, 2, 3, 8, 31, 40])) if r.random() < 0.8 else f'({self.expr("int", depth - 2)}) % 41'
+				right = str(r.choice([0, 1, 2, 3, 8, 31, 40])) if r.random() < 0.8 else f'(({self.expr("int", depth - 2)}) % 41)'
+				# the whole shift is parenthesised: as the left operand of `*` its count would otherwise take the other factor in
+				# (`a << 31 * b` shifts by 31 * b: CPython then builds an integer of gigabytes - met by the thorough tier on seed 1)
+				self.features.add('group')
+				return f'({left} {op} {right})'
 			elif op in ('|', '^', '&'):
 				left, right = self.expr('int', depth - 1), self.expr('int', depth - 1)
 				if want == 'num' and self.allow.get('mixed') and r.random() < 0.1:
